@@ -363,7 +363,18 @@ func ruleNaNSelection(w *World, r *RuleResult) {
 					bad = append(bad, fmt.Sprintf("%s: result is taken from %s, the rules require %s", desc, got, w.exprOf(f, want).String()))
 					continue
 				}
-				bits, isK := condBits(phiOnPath(p.Ret.Results[0], p))
+				retFlags := phiOnPath(p.Ret.Results[0], p)
+				bits, isK := condBits(retFlags)
+				if ex, isEx := retFlags.(*ssa.Extract); isEx && !isK && ex.Index == 0 {
+					// return c.goError(<literal>): goError hands its argument back (C03.R1)
+					if gc, isCall := ex.Tuple.(*ssa.Call); isCall && w.isGoErrorCall(gc) {
+						flagsArg := gc.Common().Args[len(gc.Common().Args)-1]
+						if w.calleeName(gc) == "(Condition).GoError" {
+							flagsArg = gc.Common().Args[0]
+						}
+						bits, isK = condBits(phiOnPath(flagsArg, p))
+					}
+				}
 				if !isK {
 					bad = append(bad, desc+": returned flags are not a constant on the evaluated path")
 					continue
